@@ -84,12 +84,12 @@ variable {C : Type}
 /-- For tasks on pairwise disjoint components (each task owns one index), two schedules that present to every
 component the same sequence of its own tasks — i.e. ALL interleavings of the per-component task lists — produce the
 same final state. -/
-theorem schedule_independent (s₁ s₂ : List (Task C)) (σ : List C) (h : ∀ i, proj i s₁ = proj i s₂) :
+theorem schedule_independent (s₁ s₂ : List (Snap.Task C)) (σ : List C) (h : ∀ i, proj i s₁ = proj i s₂) :
     runTasks s₁ σ = runTasks s₂ σ :=
   Snap.schedule_independent s₁ s₂ σ h
 
 /-- what each component ends up with is its own tasks applied in order, whatever else ran in between -/
-theorem component_sees_own_tasks (ts : List (Task C)) (σ : List C) (i : Nat) :
+theorem component_sees_own_tasks (ts : List (Snap.Task C)) (σ : List C) (i : Nat) :
     (runTasks ts σ)[i]? = (σ[i]?).map (applyAll (proj i ts)) :=
   runTasks_getElem? ts σ i
 
@@ -190,10 +190,13 @@ def idSched : Scheduler := fun _ _ n => List.range n
 def revSched : Scheduler := fun _ _ n => (List.range n).reverse
 
 example : idSched.Valid := fun _ _ _ => List.Perm.refl _
-example : revSched.Valid := fun _ _ n => List.reverse_perm _
+example : revSched.Valid := fun _ _ _ => List.reverse_perm _
 
 /-- a reversed schedule really runs the tasks in another order and still agrees (5 replicas, concrete) -/
-example : parTemperingStep countOps revSched 0 (tcOf 5) = temperingStep countOps (tcOf 5) := by decide
+def view (tc : TC Nat Nat Nat) := (tc.graphs, tc.rng, tc.graph_ham_eq_a, tc.graph_ham_eq_b, tc.total_swaps)
+
+example : view (parTemperingStep countOps revSched 0 (tcOf 5)) = view (temperingStep countOps (tcOf 5)) ∧
+    (temperingStep countOps (tcOf 5)).total_swaps = 4 := by decide
 
 /-- draw counts of one step: 1 (order) + one uniform per pair of each phase -/
 example : (temperingStep countOps (tcOf 5)).rng = some 5 ∧ (temperingStep countOps (tcOf 4)).rng = some 4 ∧
